@@ -75,6 +75,10 @@ def compatible(op, impl, model, pkeys):
         return False
     if ci == cm:
         return True
+    if cm.startswith("bodyor "):
+        if ci == cm[len("bodyor "):]:
+            return True
+        cm = "body"
     if cm == "body":
         if ci == "resp":
             return True
